@@ -64,11 +64,17 @@ def cmd_group(a):
         key = (v["kind"], v["site"], repr(sorted((v.get("features") or {}).items())))
         seen.setdefault(key, v)
     shrunk = []
-    for key, v in list(seen.items())[:4]:
+    known = load_known()
+    items = sorted(seen.items(), key=lambda kv: 1 if match_known(known, prop.ID, kv[1]) else 0)
+    n_unknown = sum(1 for _, v in items if not match_known(known, prop.ID, v))
+    for key, v in items[:max(4, min(n_unknown, 6) + 2)]:
         t0 = time.time()
-        streams, used = engine.shrink(prop, v["seed"], a.tier, v["streams"], v["kind"], budget=a.shrink_budget)
+        is_known = bool(match_known(known, prop.ID, v))
+        streams, used = engine.shrink(prop, v["seed"], a.tier, v["streams"], v["kind"],
+                                      budget=min(a.shrink_budget, 40) if is_known else a.shrink_budget,
+                                      features=v.get("features"))
         r = engine.execute(prop, v["seed"], a.tier, replay=streams, want_sample=True)
-        if not (r["outcome"] == "violation" and r["kind"] == v["kind"]):
+        if not (r["outcome"] == "violation" and r["kind"] == v["kind"] and (r.get("features") or {}) == (v.get("features") or {})):
             r = v
             streams = v["streams"]
         r = dict(r)
